@@ -461,12 +461,16 @@ class _Gen:
     def _labels(self):
         r, o = self.r, self.o
         ri = 0
+        # group names are labels, not identifiers to be normalised: blank-only, padded and case variants are distinct
+        self.group_pool = ["G1", "G2", "Analog", "Digital"]
+        if o["groups"] > 0 and r.random() < 0.2:
+            self.group_pool = [" ", "A", "A ", " A", "a", "Analog", "analog"]
         for n in self.nodes:
             if n["kind"] not in LOADS and r.random() < o["rails"]:
                 ri += 1
                 n["rail"] = "RAIL_%d" % ri
             if r.random() < o["groups"]:
-                n["group"] = r.choice(["G1", "G2", "Analog", "Digital"])
+                n["group"] = r.choice(self.group_pool)
         for n in self.nodes:
             n["via_rail"] = [bool(self.by[p].get("rail")) and r.random() < o["via_rail"] for p in n["parents"]]
 
